@@ -1,1 +1,3 @@
 import InfluxQL.Model.Duration
+import InfluxQL.Model.Scanner
+import InfluxQL.Props.C08
